@@ -3498,10 +3498,15 @@ class Shift(MapOverlap):
 
     @property
     def before(self):
+        if self.freq is not None:
+            # Only the index is shifted, no rows of other partitions needed
+            return 0
         return max(0, self.periods)
 
     @property
     def after(self):
+        if self.freq is not None:
+            return 0
         return 0 if self.periods > 0 else -self.periods
 
 
